@@ -1815,6 +1815,16 @@ class Model:
             Self: The current instance with the added surrogate model.
 
         """
+        # Check all names first, such that a rejected surrogate leaves no ids behind
+        new_ids = [name, *(surrogate.outputs if outputs is None else outputs)]
+        for i, new_id in enumerate(new_ids):
+            if new_id == "time":
+                msg = "time is a protected variable for time"
+                raise KeyError(msg)
+            if new_id in self._ids or new_id in new_ids[:i]:
+                msg = f"Model already contains surrogate called '{new_id}'"
+                raise NameError(msg)
+
         self._insert_id(name=name, ctx="surrogate")
 
         # Update surrogate if necessary
